@@ -6,7 +6,7 @@
    critical section), in an order that follows the specification, give a linearizable history.  That the real code's
    operations are atomic in this sense is what the concurrent runs test. *)
 From Coq Require Import List NArith Bool Permutation.
-From FV Require Import Mem.Linear.
+From FV Require Import Mem.Shard Mem.ShardThms Mem.Linear Mem.ShardRegister.
 Import ListNotations.
 Open Scope N_scope.
 
@@ -19,6 +19,16 @@ Theorem c02_atomic_effects_linearize : forall l : list (ev * N),
   points_ok 0 l -> seq_ok None (map fst l) -> linearizable (map fst l).
 Proof. exact atomic_points_linearizable. Qed.
 Print Assumptions c02_atomic_effects_linearize.
+
+(* the sequential memory shard (M-SHARD: every operation of every algorithm, victims arbitrary), seen through any one key,
+   follows that specification: the events of any run - insert = write (a rejected / disk-only insert = delete), remove and
+   clear = delete, get = read of what it returned - are a legal register-with-misses execution.  So, by the theorem above,
+   if the real operations take effect atomically in some order inside their intervals, every concurrent history is
+   linearizable *)
+Theorem c02_shard_is_a_register : forall c cap ops k l,
+  good c -> trace c (init_shard cap) ops k 1 = Some l -> seq_ok None l.
+Proof. exact shard_run_linearizable. Qed.
+Print Assumptions c02_shard_is_a_register.
 
 (* the checker is not vacuous: it rejects a value superseded by a completed insert, a removed value, a value read
    before it was inserted - and accepts overlapping operations in either order *)
